@@ -256,6 +256,7 @@ QP = NM([(0, 0), (0, 1), (1, 1), (2, 1), (1, 2), (2, 2)])
 TP = NM([(a, b) for a in range(4) for b in range(4)])
 add("c14_map_eq_u8", "c14::h_map_eq::<u8, u8, {N}, {M}>()", ["C14"], QP, TP, unwind="max(N,M)+2", fn="PartialEq::eq for Map", shape="S_u8")
 add("c14_map_eq_id", "c14::h_map_eq::<Key, Key, {N}, {M}>()", ["C14"], NM([(2, 2)]), NM([(2, 3), (3, 3)]), unwind="max(N,M)+2", fn="PartialEq::eq for Map", shape="S_id")
+add("c14_self_eq_nr", "c14::h_self_eq_nr::<{N}>()", ["C14"], N_(1, 2), N_(1, 2, 3), unwind="N+2", fn="PartialEq::eq for Map and Set, an operand compared with itself, keys/values with a non-reflexive ==", shape="S_nr")
 add("c14_set_eq_u8", "c14::h_set_eq::<u8, {N}, {M}>()", ["C14"], QP, TP, unwind="max(N,M)+2", fn="PartialEq::eq for Set", shape="S_u8")
 for sh, K, V in (("u8", "u8", "u8"), ("id", "Key", "u8")):
     add("c15_clone_view_" + sh, "c14::h_clone_view::<%s, %s, {N}>()" % (K, V), ["C15"], Q3 + (N_(5) if sh == "u8" else []), T3 + (N_(5, 6) if sh == "u8" else []), fn="Clone::clone for Map", shape="S_" + sh)
@@ -335,7 +336,7 @@ add("c17_disjoint", "c17::h_law_disjoint::<{N}, {J}>()", ["C17"], NJ([(1, 2), (2
     attrs=[SORT_CUT], expect=MAYPANIC(*LAW_OK), fn="Map::get_disjoint_mut under lawless ==", shape="S_law", timeout="40m")
 for i, op in enumerate(("insert", "replace", "remove", "take", "contains_get", "predicates", "union", "intersection", "difference", "symmetric_difference", "sub")):
     add("c17_set_" + op, "c17::h_law_set::<{N}, {M}>(%d)" % i, ["C17"], (NM([(1, 1)]) if i in (6, 7, 8) else NM([(1, 1), (2, 1)]) if i in (5, 10) else []) if i >= 5 else NM([(1, 0), (2, 0)]),
-        NM([(2, 1), (2, 2)]) if i >= 5 else NM([(2, 0), (3, 0)]), unwind="N+M+3" if 6 <= i <= 9 else "max(N,M)+2", expect=MAYPANIC(*LAW_OK),
+        NM([(2, 1), (2, 2)]) if i >= 5 else NM([(2, 0), (3, 0)]), unwind="N+M+3" if 6 <= i <= 9 else "max(N,M)+2", expect=MAYPANIC(*LAW_OK), profile="both" if i < 2 else "debug",
         fn="Set::%s under lawless ==" % op, shape="S_law", timeout="30m")
 
 # ------------------------------------------------------------------ C19 Debug / Display
@@ -407,6 +408,7 @@ for i, op in enumerate(("iter_mut", "values_mut")):
     add("c09_%s_zstv" % op, "c09::h_iter_mut::<u8, (), {N}>(%d)" % i, ["C09"], N_(2), N_(2, 3), unwind="N+4", fn="Map::%s with a zero-sized value type" % op, shape="u8/()")
     add("c09_%s_zst" % op, "c09::h_iter_mut::<(), (), {N}>(%d)" % i, ["C09"], N_(1), N_(1, 2), unwind="N+4", fn="Map::%s over zero-sized entries" % op, shape="S_zst")
 add("c07_lookup_zst", "c07::h_zst_lookup::<{N}>()", ["C07", "C01", "C05"], N_(1, 2), N_(1, 2, 3), unwind="N+4", fn="Set::contains/get/remove, Map::contains_key/get/get_mut/get_key_value/remove on zero-sized entries", shape="S_zst")
+add("c07_drain_zst", "c07::h_set_clear_drain::<(), {N}>(true)", ["C07", "C10"], N_(1, 2), N_(1, 2, 3), unwind="N+4", profile="both", fn="Set::drain, SetDrain::next/len over a zero-sized element", shape="S_zst")
 add("c09_set_iter_zst", "c09::h_set_iter::<(), {N}>()", ["C09"], N_(1), N_(1, 2), unwind="N+4", fn="Set::iter over a zero-sized element", shape="S_zst")
 add("c10_into_iter_zst", "c10::h_into_iter::<(), (), {N}>(0)", ["C10"], N_(1), N_(1, 2), unwind="N+4", fn="Map::into_iter over zero-sized entries", shape="S_zst")
 add("c15_clone_count_nodrop", "c14::h_clone_count_nodrop::<{N}>({A})", ["C15"], NL(2, (0, 1, 2)), NL(3, (0, 2, 3)), fn="Clone::clone for Map: clone calls counted for a type without a destructor", shape="Cc (Clone with effect, no Drop)")
